@@ -126,7 +126,7 @@ def modelledFns : List String :=
    "abs", "ceiling", "floor", "truncate",
    "toString", "toInteger", "toDecimal", "toBoolean", "convertsToString", "convertsToInteger", "convertsToDecimal", "convertsToBoolean",
    "toDate", "toDateTime", "toTime", "toQuantity", "convertsToDate", "convertsToDateTime", "convertsToTime", "convertsToQuantity",
-   "upper", "lower", "round", "now", "today", "timeOfDay"]
+   "upper", "lower", "round", "now", "today", "timeOfDay", "join"]
 
 def argCount : Ex → Nat
   | .argCons _ r => argCount r + 1
@@ -303,6 +303,22 @@ def clockFn (name : String) (env : Env) : Res (List Val) :=
       | none => .err "clock-not-representable"
   | _ => .err "UNMODELLED"
 
+/-- `Join` (experimental table, impl/strings.go): every item must be a String; the texts are joined as
+    `strings.Join` does (Go strings are byte sequences), with the delimiter between them -/
+def strBytes? : Val → Option (List UInt8)
+  | .str s => some s
+  | _ => none
+def joinBytes (d : List UInt8) : List (List UInt8) → List UInt8
+  | [] => []
+  | [x] => x
+  | x :: rest => x ++ d ++ joinBytes d rest
+def joinOn (d : List UInt8) (input : List Val) : Res (List Val) :=
+  match input with
+  | [] => .ok []
+  | _ =>
+    if input.all (fun v => (strBytes? v).isSome) then .ok [.str (joinBytes d (input.filterMap strBytes?))]
+    else .err "not-a-string"
+
 def anyIs (b : Bool) (input : List Val) : Bool := input.any (· == .bool b)
 
 /-- `Name()` of a System value -/
@@ -392,6 +408,7 @@ def apply0 (name : String) (input : List Val) : Res (List Val) :=
   | "floor" => mathOn .floor input
   | "truncate" => mathOn .truncate input
   | "round" => (match input with | [] => .ok [] | [v] => roundVal 0 v | _ => .err "not-singleton")
+  | "join" => joinOn [] input
   | "upper" => caseOn asciiUpper input
   | "lower" => caseOn asciiLower input
   | "toString" => convOn .string input
@@ -435,6 +452,7 @@ def apply1 (name : String) (a : Ev) (input : List Val) : Res (List Val) :=
   | "substring" =>
     onString input fun s => (a input).bind fun av => intArg1 av fun st =>
       .ok (match substring s st none with | some r => [strVal r] | none => [])
+  | "join" => if input.isEmpty then .ok [] else (a input).bind fun av => (toStr av).bind fun d => joinOn d input
   | "round" =>
     (match input with
      | [] => .ok []
